@@ -283,7 +283,8 @@ def pairs (s : String) : List (List Char × List Char) :=
 
 def fmtInst (i : Inst) : String :=
   let ps := "&".intercalate (i.params.map fun kv => s!"{hex kv.1}={hex kv.2}")
-  let ex := "&".intercalate (i.extras.map fun kv => s!"{hex kv.1}={hex kv.2}")
+  -- a resource key whose value became empty is listed on neither side (`studysim.extras_of` skips it)
+  let ex := "&".intercalate ((i.extras.filter fun kv => !kv.2.isEmpty).map fun kv => s!"{hex kv.1}={hex kv.2}")
   s!"{hex i.name}|{hex i.nick}|{hex i.ws}|{hex i.cmd}|{hex i.restart}|{i.rlimit}|{ps}|{ex}"
 
 def fmtAssoc (l : List (List Char × List (List Char))) (sorted : Bool) : String :=
